@@ -125,8 +125,12 @@ def bounded(tier, seed):
             if oa != ob:
                 viol.append({"clause": "relayout_invariant", "input": {"text": a, "other_layout": b, "options": {"width": w, "semantic": sm},
                                                                        **P.doc_features(a)}, "got": ob[:6000], "want": oa[:6000]})
+    # which source newlines are significant is decided by the tag-line predicates and the block heuristics: both against their
+    # specifications on every short line (a predicate that is too generous keeps a layout-dependent break)
+    from . import funcspecs as FS
+    evals += FS.tag_line_predicates(viol) + FS.block_heuristics(viol)
     return {"evaluations": evals, "distinct_nontrivial": len(distinct), "violations": viol, "samples": [{"text": docs[0]}],
-            "rule": "seeded documents (no hazard words): multiplying inter-word spaces leaves the output unchanged at (88,fill), "
+            "rule": "(also: the tag-line predicates and block heuristics against their specifications on every line of <= 4 / 5 symbols) seeded documents (no hazard words): multiplying inter-word spaces leaves the output unchanged at (88,fill), "
                     "(20,fill), (30,semantic); formatting first with (w1,mode1) and then with (w2,mode2) equals formatting with "
                     "(w2,mode2) directly; seeded paragraphs (plain and in a list item) with template tags / comments in mid-line position and list-like words, in two soft-break layouts: same output; seeded paragraphs whose inline constructs (emphasis, strong, one- and two-tilde strikethrough, link text, code span, image alt) span several words, in two soft-break layouts: same output; distinct = distinct baseline outputs",
             "exhaustive": False, "bound": "%d documents" % n}
